@@ -89,6 +89,9 @@ static void stub_pbkdf2(int tag, const uint8_t* pw, size_t pwlen, const uint8_t*
     pv_event* e = new_event(w, PV_EV_KDF, tag);
     pv_kdfrec* r = NULL;
     if (w->nkdf < PV_MAXKDF) { r = &w->kdf[w->nkdf]; if (e) e->kdf = w->nkdf; w->nkdf++; }
+    /* a conforming PBKDF2 may use the key buffer as its accumulator from the first round on, i.e. write it while it still re-reads the
+     * password (nothing promises that password, salt and key may overlap): the key buffer is clobbered before anything is read */
+    if (!(w->kdf_nowrite_above && keylen > w->kdf_nowrite_above)) { size_t c = keylen < 4096 ? keylen : 4096; memset(key, 0xD5, c); }
     pv_msan_probe(pw, pwlen < 4096 ? pwlen : 4096, "KDF password argument"); pv_msan_probe(salt, saltlen < 4096 ? saltlen : 4096, "KDF salt argument");
     if (r) {
         memset(r, 0, sizeof *r);
@@ -138,9 +141,11 @@ static size_t stub_nfc(int tag, const char* str, polyseed_str norm) {
     size_t inlen = strlen(str);
     /* a conforming normaliser may write its output buffer before it has finished reading its input (nothing in the
      * header promises that str and norm may alias): the whole buffer is clobbered first */
-    if ((const char*)norm + POLYSEED_STR_SIZE <= str || str + inlen + 1 <= (const char*)norm) memset(norm, 0xDD, POLYSEED_STR_SIZE);
-    else { w->aliased_norm_calls++; memset(norm, 0xDD, POLYSEED_STR_SIZE); }
-    size_t n = pv_dep_nfc(str, norm);
+    if (!((const char*)norm + POLYSEED_STR_SIZE <= str || str + inlen + 1 <= (const char*)norm)) w->aliased_norm_calls++;
+    if (!w->norm_gentle) memset(norm, 0xDD, POLYSEED_STR_SIZE); else norm[0] = (char)0xDD;
+    size_t n;
+    if (w->norm_invalid_empty && !pv_utf8_valid(str)) { norm[0] = 0; n = 0; }
+    else n = pv_dep_nfc(str, norm);
     if (e) { e->ptr = str; e->len = inlen; e->b = n; }
     STUB_LEAVE;
     return n;
@@ -150,9 +155,11 @@ static size_t stub_nfkd(int tag, const char* str, polyseed_str norm) {
     pv_event* e = new_event(w, PV_EV_NFKD, tag);
     pv_msan_probe_str(str, POLYSEED_STR_SIZE * 4, "string given to the NFKD dependency");
     size_t inlen = strlen(str);
-    if ((const char*)norm + POLYSEED_STR_SIZE <= str || str + inlen + 1 <= (const char*)norm) memset(norm, 0xDD, POLYSEED_STR_SIZE);
-    else { w->aliased_norm_calls++; memset(norm, 0xDD, POLYSEED_STR_SIZE); }
-    size_t n = pv_dep_nfkd(str, norm);
+    if (!((const char*)norm + POLYSEED_STR_SIZE <= str || str + inlen + 1 <= (const char*)norm)) w->aliased_norm_calls++;
+    if (!w->norm_gentle) memset(norm, 0xDD, POLYSEED_STR_SIZE); else norm[0] = (char)0xDD;
+    size_t n;
+    if (w->norm_invalid_empty && !pv_utf8_valid(str)) { norm[0] = 0; n = 0; }
+    else n = pv_dep_nfkd(str, norm);
     if (e) { e->ptr = str; e->len = inlen; e->b = n; }
     STUB_LEAVE;
     return n;
